@@ -68,6 +68,8 @@ func (f *c20FailScan) PostProcessDefinitionRegistry(r container.DefinitionRegist
 	r.GetMetaOrRegister(name, c)
 	if len(name) == 2 && name[0] == 'c' {
 		atomic.AddInt32(&f.seen[name[1]-'0'], 1)
+	} else {
+		atomic.AddInt32(&f.seen[15], 1) // the scanners themselves are components too
 	}
 	if len(name) == 2 && name[0] == 'c' && f.fail[name[1]-'0'] {
 		return errors.New("scan failed on " + name)
@@ -230,10 +232,14 @@ func c20Scan(c *core.Ctx) {
 						return true
 					}
 				}
-				return false
+				others := int32(1)
+				if cs.Builtin {
+					others = 2
+				}
+				return seen[15] != others
 			}():
 				c.Outcome("not-once")
-				c.Report(key("scancount"), "not-exactly-once", fmt.Sprintf("scanning %d components (built-in scanner %v): the user scanner was handed the components %v times (want once each) under schedule %v", cs.N, cs.Builtin, seen[:cs.N], e.Script), cc)
+				c.Report(key("scancount"), "not-exactly-once", fmt.Sprintf("scanning %d components (built-in scanner %v): the user scanner was handed the components %v times (want once each) and the scanner components %d times in all under schedule %v", cs.N, cs.Builtin, seen[:cs.N], seen[15], e.Script), cc)
 			case gotErr != (cs.FailMask != 0):
 				c.Outcome("error-lost")
 				c.Report(key("errlost"), "error-lost", fmt.Sprintf("scanner failed on mask %b but PrepareComponents returned error=%v under schedule %v", cs.FailMask, gotErr, e.Script), cc)
